@@ -1,6 +1,7 @@
 import Lean.Data.Json
 import Clover.Spec.Spec
 import Clover.Model.GoVal
+import Clover.Model.QueryBuilder
 /-! JSON line protocol: parsing of cases, canonical printing of results (driver only; not part of
     the model the theorems are about) -/
 namespace CV.Driver
@@ -151,21 +152,25 @@ def parseQuery (j : Json) : Except String Query := do
   let crit ← match j.getObjVal? "crit" with
     | .ok c => if c.isNull then pure none else pure (some (← parseCrit c))
     | .error _ => pure none
-  let skip := match j.getObjVal? "skip" with
-    | .ok n => (n.getNat?.toOption).getD 0
-    | _ => 0
-  let limit := match j.getObjVal? "limit" with
-    | .ok n => (n.getInt?.toOption).getD (-1)
-    | _ => -1
-  let sort ← match j.getObjVal? "sort" with
-    | .ok a => (← a.getArr?).toList.mapM (fun p => do
+  -- the builders are applied as the harness applies them: NewQuery, Where, Sort, Skip, Limit
+  let q := Query.new coll
+  let q := match crit with | some c => q.whereB c | none => q
+  let q ← match j.getObjVal? "sort" with
+    | .ok a => do
+      let opts ← (← a.getArr?).toList.mapM (fun p => do
         let pa ← p.getArr?
-        -- `normalizeSortOptions`: any direction >= 0 is ascending
-        pure ((← fromHex (← pa[0]!.getStr?)), (if (← pa[1]!.getInt?) ≥ 0 then (1 : Int) else -1)))
-    | .error _ => pure []
-  -- `Sort()` without options orders by `_id`
-  let sort := if (j.getObjVal? "sortDefault").isOk then [(idField, (1 : Int))] else sort
-  return { coll, crit, skip, limit, sort }
+        pure ((← fromHex (← pa[0]!.getStr?)), (← pa[1]!.getInt?)))
+      pure (if opts.isEmpty then q else q.sortB opts)
+    | .error _ => pure q
+  -- `Sort()` without options
+  let q := if (j.getObjVal? "sortDefault").isOk then q.sortB [] else q
+  let q := match j.getObjVal? "skip" with
+    | .ok n => (match n.getInt?.toOption with | some k => q.skipB k | none => q)
+    | _ => q
+  let q := match j.getObjVal? "limit" with
+    | .ok n => (match n.getInt?.toOption with | some k => q.limitB k | none => q)
+    | _ => q
+  return q
 
 def parseUpd (j : Json) : Except String Upd := do
   if let .ok a := j.getObjVal? "setAll" then
